@@ -288,6 +288,8 @@ struct Layout {
     start_clocks: Vec<u64>,
     sharded: bool,
     slow_wal: bool,
+    flushed: bool,
+    synced: bool,
     updates: Vec<Upd>,
     has_manifest: bool,
     orphans: bool,
@@ -303,7 +305,7 @@ fn seg_key(id: u64) -> String {
     format!("{}/segments/segment-{:08}.seg", PREFIX, id)
 }
 
-fn gen_updates(rng: &mut Rng, slow_wal: bool, sharded: bool) -> (Vec<u64>, Vec<Upd>) {
+fn gen_updates(rng: &mut Rng, slow_wal: bool, sharded: bool, synced: bool) -> (Vec<u64>, Vec<Upd>) {
     let nrep = rng.gen_range(3..=4usize);
     let mut reps: Vec<ShardReplicaState> = (1..=nrep as u64).map(|r| ShardReplicaState::new(ReplicaId(r), ConsistencyLevel::Eventual)).collect();
     let mut start = Vec::new();
@@ -358,7 +360,14 @@ fn gen_updates(rng: &mut Rng, slow_wal: bool, sharded: bool) -> (Vec<u64>, Vec<U
         };
         let d = ReplicationDelta::new(d.key, d.value, d.source_replica);
         // now and then another replica receives it, so that clocks interleave
-        if !sharded && rng.gen_bool(0.2) {
+        if synced {
+            // every replica sees every delta at once: stamps grow in generation order
+            for t in 0..nrep {
+                if t != r {
+                    reps[t].apply_remote_delta(d.clone());
+                }
+            }
+        } else if !sharded && rng.gen_bool(0.2) {
             let t = rng.gen_range(0..nrep);
             if t != r && !(slow_wal && t == 0) {
                 reps[t].apply_remote_delta(d.clone());
@@ -398,12 +407,44 @@ fn pick_part(rng: &mut Rng, has_ck: bool, nseg: usize, pref: u8) -> Part {
 }
 
 fn gen_layout(rng: &mut Rng) -> Layout {
-    let slow_wal = rng.gen_bool(0.5);
+    // scenario: 0 = a slow replica mostly in the WAL and a fast one mostly in the segments,
+    // 1 = production-like (everything goes to the WAL, a prefix has been flushed to checkpoint
+    // and segments in order, the WAL may have been truncated), 2 = random partition
+    let scenario = match rng.gen_range(0..100) {
+        0..=34 => 0u8,
+        35..=59 => 1,
+        _ => 2,
+    };
+    let slow_wal = scenario == 0;
+    let flushed = scenario == 1;
+    let synced = flushed && rng.gen_bool(0.5);
     let sharded = rng.gen_bool(0.5);
-    let (start_clocks, mut updates) = gen_updates(rng, slow_wal, sharded);
+    let (start_clocks, mut updates) = gen_updates(rng, slow_wal, sharded, synced);
     let has_ck = rng.gen_bool(0.5);
     let nseg0 = rng.gen_range(1..=5usize);
+    if flushed {
+        let n = updates.len();
+        let cut = rng.gen_range(0..=n);
+        let wal_from = rng.gen_range(0..=cut);
+        let nchunks = nseg0 + has_ck as usize;
+        let mut bounds: Vec<usize> = (0..nchunks - 1).map(|_| rng.gen_range(0..=cut)).collect();
+        bounds.sort();
+        for (x, u) in updates.iter_mut().enumerate() {
+            if x < cut {
+                let chunk = bounds.iter().filter(|b| **b <= x).count();
+                if has_ck && chunk == 0 {
+                    u.in_ck = true;
+                } else {
+                    u.segs.push(chunk - has_ck as usize);
+                }
+            }
+            u.in_wal = x >= wal_from;
+        }
+    }
     for u in updates.iter_mut() {
+        if flushed {
+            break;
+        }
         let pref = if slow_wal && u.rep == 0 && rng.gen_bool(0.8) {
             1
         } else if slow_wal && u.rep == 1 && rng.gen_bool(0.8) {
@@ -513,9 +554,9 @@ fn gen_layout(rng: &mut Rng) -> Layout {
     let has_manifest = !rng.gen_bool(0.05);
     let orphans = !has_manifest && rng.gen_bool(0.5);
     let wal: Vec<ReplicationDelta> = updates.iter().filter(|u| u.in_wal).map(|u| u.d.clone()).collect();
-    let wal_max = rng.gen_range(300..2000usize);
+    let wal_max = rng.gen_range(200..1200usize);
     let version = rng.gen_range(0..40u64);
-    Layout { start_clocks, sharded, slow_wal, updates, has_manifest, orphans, version, segs, ck, covered: !uncovered, ties, wal, wal_max }
+    Layout { start_clocks, sharded, slow_wal, flushed, synced, updates, has_manifest, orphans, version, segs, ck, covered: !uncovered, ties, wal, wal_max }
 }
 
 impl Layout {
@@ -728,7 +769,7 @@ async fn run_case(seed: u64, i: u64, verbose: bool, out: &mut Out) {
     let below: Vec<&(u64, ReplicationDelta)> = wal_entries.iter().filter(|(ts, d)| *ts < high_water && !seg_contents.contains(&content(d)) && !ck_contents.contains(&content(d))).collect();
 
     if verbose {
-        println!("case {}: sharded={} slow_wal_scenario={} starting clocks {:?}", i, lay.sharded, lay.slow_wal, lay.start_clocks);
+        println!("case {}: one-replica-per-key={} scenario={} starting clocks {:?}", i, lay.sharded, if lay.slow_wal { "slow replica in WAL" } else if lay.flushed && lay.synced { "prefix flushed, synchronised clocks" } else if lay.flushed { "prefix flushed, independent clocks" } else { "random partition" }, lay.start_clocks);
         println!("updates (generation order):");
         for (n, u) in lay.updates.iter().enumerate() {
             println!("  u{:<2} replica {} t={:<14} {}  -> ck={} segs={:?} wal={}", n, u.rep + 1, u.d.value.timestamp.time, delta_text(&u.d), u.in_ck, u.segs.iter().map(|j| lay.segs[*j].id).collect::<Vec<_>>(), u.in_wal);
@@ -759,9 +800,7 @@ async fn run_case(seed: u64, i: u64, verbose: bool, out: &mut Out) {
         out.count(t);
     }
     out.count(if lay.sharded { "writers:one-replica-per-key" } else { "writers:any-replica-any-key" });
-    if lay.slow_wal {
-        out.count("scenario:slow-replica-in-wal-fast-replica-in-segments");
-    }
+    out.count(if lay.slow_wal { "scenario:slow-replica-in-wal-fast-replica-in-segments" } else if lay.flushed && lay.synced { "scenario:prefix-flushed-all-in-wal(synchronised clocks)" } else if lay.flushed { "scenario:prefix-flushed-all-in-wal(independent clocks)" } else { "scenario:random-partition" });
     out.count(if lay.ck.is_some() { "checkpoint:yes" } else { "checkpoint:no" });
     out.count(&format!("segments:{}", lay.segs.len()));
     out.count(&format!("wal-files:{}", wal_files.min(6)));
@@ -1107,7 +1146,7 @@ async fn run_case(seed: u64, i: u64, verbose: bool, out: &mut Out) {
     out.sample(json!({"case": i, "tags": lay.tags(), "updates": lay.updates.len(), "segments": lay.segs.iter().map(|s| s.id).collect::<Vec<_>>(), "checkpoint": lay.ck.is_some(), "wal_entries": wal_entries.len(), "high_water": high_water}));
     bump(out, "updates-total", lay.updates.len() as u64);
     if verbose {
-        println!("Coq case:\n(K11 {} 1\n  {}\n  {} {} {}\n  {}\n  {}\n  {}\n  {}\n  {}\n  {})", lay.version, segs_t, ck_t, manifest.next_segment_id, cbool(lay.has_manifest), objs_t, wal_t, k_rec_t, k_recwal_t, k_state_t, k_prod_t);
+        println!("Coq case, written out in full (same term):\n(K11 {} 1\n  {}\n  {} {} {}\n  {}\n  {}\n  {}\n  {}\n  {}\n  {})", lay.version, segs_t, ck_t, manifest.next_segment_id, cbool(lay.has_manifest), objs_t, wal_t, k_rec_t, k_recwal_t, k_state_t, k_prod_t);
     }
 }
 
@@ -1116,7 +1155,7 @@ fn main() {
     let args = &Args::parse(&a[1..]);
     let verbose = args.only.is_some();
     let mut out = Out::new(&args.out, "C11", args.shards, HEADER);
-    out.nontrivial_rule = "a case = 6-31 updates (SET with/without expiry, DEL, HSET, HDEL; one kind per key over keys k/j/m/h/g) issued by 3-4 real ShardReplicaStates with independent Lamport clocks (0, small, hundreds, far ahead; either one replica per key or any replica any key with occasional cross-delivery; 10% of the deltas occur twice), partitioned at random (15% into two parts) into a checkpoint (50%), 1-5 segments with increasing ids and a WAL written by the real WalRotator (several files); half of the cases put a slow replica mostly into the WAL and a fast one mostly into the segments; variants: no manifest, missing/torn segment or checkpoint object, min_timestamp ties, listed segments with id <= last_segment_id; non-trivial = recovery returned Ok and at least two of checkpoint/segments/WAL are non-empty; distinct by layout text".into();
+    out.nontrivial_rule = "a case = 6-31 updates (SET with/without expiry, DEL, HSET, HDEL; one kind per key over keys k/j/m/h/g) issued by 3-4 real ShardReplicaStates with independent Lamport clocks (0, small, hundreds, far ahead; either one replica per key or any replica any key with occasional cross-delivery; 10% of the deltas occur twice), partitioned at random (15% into two parts) into a checkpoint (50%), 1-5 segments with increasing ids and a WAL written by the real WalRotator (several files); 35% of the cases put a slow replica mostly into the WAL and a fast one mostly into the segments, 25% are production-like (everything in the WAL, a prefix flushed in order to checkpoint and segments, half of them with synchronised clocks); variants: no manifest, missing/torn segment or checkpoint object, min_timestamp ties, listed segments with id <= last_segment_id; non-trivial = recovery returned Ok and at least two of checkpoint/segments/WAL are non-empty; distinct by layout text".into();
     if !verbose {
         std::panic::set_hook(Box::new(|_| {}));
     }
